@@ -1,6 +1,7 @@
 import Lean.Data.Json
 import MoSql.Gen.Levels
 import MoSql.Gen.FmtTable
+import MoSql.Script
 /-
 Line-protocol driver: one JSON request per line on stdin, one JSON answer per line on stdout.
 Imports the model files and Lean's JSON library only (no Mathlib), so it is also built as the
@@ -207,6 +208,23 @@ def handleFmtTable : String :=
   "{\"bad\":[" ++ ",".intercalate bad ++ "],\"ops\":[" ++
     ",".intercalate (Gen.fmtOps.map fun o => jstr o.name) ++ "]}"
 
+def handleScript (req : Json) : Except String String := do
+  let text ← req.getObjValAs? String "text"
+  let ps := Script.pieces text.toList
+  let items := ps.map fun p =>
+    match p with
+    | .stmt t => "[\"s\"," ++ jstr (String.ofList t) ++ "]"
+    | .directive t => "[\"d\"," ++ jstr (String.ofList t) ++ "]"
+  pure ("{\"pieces\":[" ++ ",".intercalate items ++ "]}")
+
+def handleAccumulate (req : Json) : Except String String := do
+  let outs ← req.getObjVal? "outs"
+  match outs with
+  | .arr xs => do
+    let js ← xs.toList.mapM toJ
+    pure ("{\"model\":" ++ (Script.unwrap (Script.accumulate js)).render ++ "}")
+  | _ => err "outs must be a list"
+
 def handle (line : String) : String :=
   match Json.parse line with
   | .error e => "{\"error\":" ++ jstr ("json: " ++ e) ++ "}"
@@ -216,6 +234,8 @@ def handle (line : String) : String :=
       | .ok "expr" => handleExpr req
       | .ok "scrub" => handleScrub req
       | .ok "fmt" => handleFmt req
+      | .ok "script" => handleScript req
+      | .ok "accumulate" => handleAccumulate req
       | .ok "fmtTable" => pure handleFmtTable
       | .ok "ping" => pure "{\"pong\":true}"
       | .ok o => err ("unknown op " ++ o)
